@@ -86,7 +86,7 @@ fn check_c08(pe: &PointEval, item: u64, acc: &mut Acc) {
     }
     acc.count("L_matrices_checked");
     let bu = ex.bound_u(K);
-    if bu > 1e-3 {
+    if !(bu <= 1e-3) {
         acc.count("skipped_ill_conditioned");
     } else {
         let rel = qf(&((q(out.u) - &ex.det).abs() / &ex.det));
@@ -123,7 +123,7 @@ fn check_c09(pe: &PointEval, item: u64, acc: &mut Acc) {
     let bv = ex.bound_v(K);
     let bu = ex.bound_u(K);
     acc.set("cond_V_decades", format!("1e{:02}", ex.cond_v.log10().max(0.0).floor() as i64));
-    if bv + bu > 1e-3 {
+    if !(bv + bu <= 1e-3) {
         acc.count("skipped_ill_conditioned");
     } else {
         let f = &ex.v * &ex.det;
@@ -238,7 +238,7 @@ fn check_c10(pe: &PointEval, item: u64, acc: &mut Acc) {
                         // magnitude of the terms that were summed (and partly cancelled) to form k and the shift
                         let mut kmaj = out.k[lp][k].abs() + qf(&ex.shift[lp][k].abs());
                         for l2 in 0..nl {
-                            kmaj += pref * m.qt_inv[lp][l2].abs() * m.q[l2][k].abs() + m.inv[lp][l2].abs() * m.u_vectors[l2][k].abs();
+                            kmaj += pref * m.qt_inv[lp][l2].abs() * m.q[l2][k].abs() + m.inv[lp][l2].abs() * qf(&ex.uvec_abs[l2][k]);
                         }
                         scale += m.qt[l][lp].abs() * kmaj;
                         lhs += &qt[l][lp] * y;
@@ -246,6 +246,9 @@ fn check_c10(pe: &PointEval, item: u64, acc: &mut Acc) {
                     let rhs = pref * m.q[l][k];
                     let tol = K * EPS * kap * scale + (bv + 8.0 * EPS) * rhs.abs() + K * EPS * kap.sqrt() * rhs.abs();
                     let err = (qf(&lhs) - rhs).abs();
+                    if std::env::var("C10_DEBUG").is_ok() && !(err <= tol) {
+                        eprintln!("l={} k={} lhs={:e} rhs={:e} err={:e} tol={:e} scale={:e} kap={:e} bv={:e} pref={:e} q={:e} kcomp={:e} shift_exact={:e} shift_code={:e} qt={:?} lambda={:e} v={:e} Vexact={:e} u_vec={:?} inv={:?}", l, k, qf(&lhs), rhs, err, tol, scale, kap, bv, pref, m.q[l][k], out.k[l][k], qf(&ex.shift[l][k]), m.shift[l][k], m.qt[l], m.lambda, out.v, qf(&ex.v), m.u_vectors.iter().map(|v| v[k]).collect::<Vec<_>>(), m.inv[l]);
+                    }
                     acc.max("gaussian_map_error_over_tol", err / tol);
                     if !(err <= tol) {
                         fails.push(format!("[Q^T(k+L^-1u)]_{},{} = {:e}, sqrt(v/2lambda) q = {:e} (err {:e}, tol {:e})", l, k, qf(&lhs), rhs, err, tol));
@@ -286,7 +289,11 @@ fn check_c11(pe: &PointEval, item: u64, acc: &mut Acc) {
     let want = (1.0 / out.u).powf(d_half) * (1.0 / out.v).powf(su.omega) * cf;
     if want.is_finite() && out.jacobian.is_finite() && want != 0.0 {
         let rel = ((out.jacobian - want) / want).abs();
-        let tol = 64.0 * EPS * (1.0 + d_half * out.u.ln().abs() + su.omega * out.v.ln().abs());
+        let mut tol = 64.0 * EPS * (1.0 + d_half * out.u.ln().abs() + su.omega * out.v.ln().abs());
+        if !tol.is_finite() {
+            // u or v not positive: the logarithms are undefined; bit-level agreement is still required
+            tol = 64.0 * EPS;
+        }
         acc.max("formula_error_over_tol", rel / tol);
         acc.count("formula_on_returned_values_checked");
         if !(rel <= tol) {
@@ -299,7 +306,7 @@ fn check_c11(pe: &PointEval, item: u64, acc: &mut Acc) {
     let bu = ex.bound_u(K);
     let bv = ex.bound_v(K);
     let budget = d_half * bu + su.omega * bv;
-    if budget > 1e-3 || su.single_external {
+    if !(budget <= 1e-3) || su.single_external {
         acc.count("skipped_ill_conditioned_or_single_external");
     } else if pe.lg.x_unscaled.iter().all(|v| *v >= f64::MIN_POSITIVE) {
         if let Some(ex0) = Exact::at(su, &pe.lg.x_unscaled) {
@@ -375,7 +382,7 @@ fn check_c02(pe: &PointEval, item: u64, acc: &mut Acc) {
         return;
     }
     acc.set("cond_V_decades", format!("1e{:02}", ex.cond_v.log10().max(0.0).floor() as i64));
-    if !(ex.cond_v <= 1e8) || ex.bound_u(K) > 1e-3 {
+    if !(ex.cond_v <= 1e8) || !(ex.bound_u(K) <= 1e-3) {
         acc.count("skipped_ill_conditioned(cond_V>1e8)");
         return;
     }
@@ -525,7 +532,7 @@ fn graph_case(item: u64, rng: &mut Rng, acc: &mut Acc, which: Which, quick: bool
                     let Some((u1, v1, j1, bu1, bv1)) = one_point(alt, &x, which, item, acc) else { continue };
                     let tu = bu0 + bu1 + 8.0 * EPS;
                     let tv = bv0 + bv1 + 8.0 * EPS;
-                    if tu > 1e-3 || tv > 1e-3 {
+                    if !(tu <= 1e-3) || !(tv <= 1e-3) {
                         acc.count("metamorphic_skipped_ill_conditioned");
                         continue;
                     }
